@@ -24,8 +24,9 @@ Abs(st, I, now) ==
    rdmo   |-> [x \in I |-> IF x \in M THEN Rdmo(st, x) ELSE {}],
    name   |-> [x \in I |-> IF x \in M /\ Len(st.e[x].n) = 1 THEN st.e[x].n[1] ELSE ""]]
 HX(I) == [del |-> [x \in I |-> G(h.del, x, 0)], ts |-> [x \in I |-> G(h.ts, x, 0)],
-          want |-> [x \in I |-> G(h.want, x, {})], dep |-> [x \in I |-> G(h.dep, x, {})]]
-H0 == [del |-> <<>>, ts |-> <<>>, want |-> <<>>, dep |-> <<>>]
+          want |-> [x \in I |-> G(h.want, x, {})], dep |-> [x \in I |-> G(h.dep, x, {})],
+          rf |-> [x \in I |-> G(h.rf, x, {})]]
+H0 == [del |-> <<>>, ts |-> <<>>, want |-> <<>>, dep |-> <<>>, rf |-> <<>>]
 EmptySt == [e |-> <<>>, lvx |-> <<>>]
 
 IdsOf(r, pst) == ModelIds(r.st) \cup (IF Starts(r) THEN {} ELSE ModelIds(pst))
@@ -47,7 +48,7 @@ Parts(r, pst) ==   \* the conjuncts of L1 with a name each
     <<"visibility", VisOk(r.st)>>,
     <<"lifecycle", Starts(r) \/ LifecycleOk(p, q, hx)>>,
     <<"revive-incomplete", (rev /\ r.res = "ok") => ReviveOk(p, q, hx, r.id)>>,
-    <<"revive-refused", (rev /\ Unobstructed(p, r.id)) => r.res = "ok">> >>
+    <<"revive-refused", (rev /\ Unobstructed(p, hx, r.id)) => r.res = "ok">> >>
 LineL1(r, pst) == \A i \in 1..4 : Parts(r, pst)[i][2]
 Sig(r, pst) == LET P == Parts(r, pst) i == CHOOSE j \in 1..4 : ~P[j][2] IN P[i][1] \o " after=" \o r.a
 
@@ -72,7 +73,7 @@ LineL2(r, pst) ==
 Upd(r, pst) ==
   IF Starts(r) THEN
        LET I == ModelIds(r.st)  q == Abs(r.st, I, r.t)  e == Abs(EmptySt, I, 0)
-       IN  Hist([del |-> [x \in I |-> 0], ts |-> [x \in I |-> 0], want |-> [x \in I |-> {}], dep |-> [x \in I |-> {}]], e, q)
+       IN  Hist([del |-> [x \in I |-> 0], ts |-> [x \in I |-> 0], want |-> [x \in I |-> {}], dep |-> [x \in I |-> {}], rf |-> [x \in I |-> {}]], e, q)
   ELSE LET I == IdsOf(r, pst) IN Hist(HX(I), Abs(pst, I, 0), Abs(r.st, I, r.t))
 
 Init == l = 1 /\ h = H0
